@@ -197,9 +197,15 @@ class Decoder(object):
         self.number_of_bits -= number_of_bits
 
     def peek_bit(self):
+        if self.number_of_bits == 0:
+            raise OutOfDataError(self.number_of_read_bits())
+
         return ((self.value >> (self.number_of_bits - 1)) & 1)
 
     def clear_bit(self):
+        if self.number_of_bits == 0:
+            raise OutOfDataError(self.number_of_read_bits())
+
         self.value &= (1 << (self.number_of_bits - 1)) - 1
 
     def read_bit(self):
